@@ -2169,6 +2169,19 @@ package apd
 //@ define SnanHead(s: []byte, p: int): bool = len(s) >= p + 4 && CI(s, p, 115) && CI(s, p + 1, 110) && CI(s, p + 2, 97) && CI(s, p + 3, 110)
 //@ define IsDigit(c: int): bool = 48 <= c && c <= 57
 //@ define BadChar(c: int): bool = 0 <= c && c < 128 && !(48 <= c && c <= 57) && c != 43 && c != 45 && c != 46 && !(65 <= c && c <= 90) && !(97 <= c && c <= 122)
+//@ define RejLetter(s: []byte, k: int, k2: int): bool = Ascii(s) && NumStart(s) && 0 <= k && k < len(s) && IsLetter(s[k]) && s[k] != 69 && s[k] != 101
+//@ define RejNanTail(s: []byte, k: int, k2: int): bool = Ascii(s) && NanHead(s, SgnOff(s)) && SgnOff(s) + 3 <= k && k < len(s) && !IsDigit(s[k])
+//@ define RejSnanTail(s: []byte, k: int, k2: int): bool = Ascii(s) && SnanHead(s, SgnOff(s)) && SgnOff(s) + 4 <= k && k < len(s) && !IsDigit(s[k])
+//@ define RejWord(s: []byte, k: int, k2: int): bool = Ascii(s) && len(s) > SgnOff(s) && IsLetter(s[SgnOff(s)]) && !InfText(s, SgnOff(s)) && !NanHead(s, SgnOff(s)) && !SnanHead(s, SgnOff(s))
+//@ define RejTwoPoints(s: []byte, k: int, k2: int): bool = Ascii(s) && 0 <= k && k < k2 && k2 < len(s) && s[k] == 46 && s[k2] == 46
+//@ define RejTwoE(s: []byte, k: int, k2: int): bool = Ascii(s) && NumStart(s) && 0 <= k && k < k2 && k2 < len(s) && (s[k] == 69 || s[k] == 101) && (s[k2] == 69 || s[k2] == 101)
+//@ define RejSignInside(s: []byte, k: int, k2: int): bool = Ascii(s) && 1 <= k && k < len(s) && (s[k] == 43 || s[k] == 45) && s[k - 1] != 69 && s[k - 1] != 101
+//@ define RejEmpty(s: []byte, k: int, k2: int): bool = len(s) == SgnOff(s)
+//@ define RejExpEmpty(s: []byte, k: int, k2: int): bool = Ascii(s) && NumStart(s) && len(s) >= 2 && (s[len(s) - 1] == 69 || s[len(s) - 1] == 101)
+//@ define RejChar(s: []byte, k: int, k2: int): bool = Ascii(s) && 0 <= k && k < len(s) && BadChar(s[k])
+//@ define RejNoDigit(s: []byte, k: int, k2: int): bool = Ascii(s) && (forall j in 0..len(s)-1: !IsDigit(s[j])) && !InfText(s, SgnOff(s)) && !(NanHead(s, SgnOff(s)) && len(s) == SgnOff(s) + 3) && !(SnanHead(s, SgnOff(s)) && len(s) == SgnOff(s) + 4)
+// RejText: the eleven classes of ASCII texts outside the numeric-string grammar that setString is proved to reject (k, k2: positions of the offending bytes)
+//@ define RejText(s: []byte, k: int, k2: int): bool = RejLetter(s, k, k2) || RejNanTail(s, k, k2) || RejSnanTail(s, k, k2) || RejWord(s, k, k2) || RejTwoPoints(s, k, k2) || RejTwoE(s, k, k2) || RejSignInside(s, k, k2) || RejEmpty(s, k, k2) || RejExpEmpty(s, k, k2) || RejChar(s, k, k2) || RejNoDigit(s, k, k2)
 //@ define GramFrac(z: int, C: int, dot: bool, a: int): int = ite(dot, z + nd10(C) - a, 0)
 //@ define GramExp(z: int, C: int, dot: bool, a: int, hase: bool, esg: int, X: int): int = ite(hase, ite(esg == 45, -X, X), 0) - GramFrac(z, C, dot, a)
 // FinText: s is the text the formatter writes for the finite decimal (neg, C, E): plain notation (exponent <= 0) or scientific
@@ -2213,16 +2226,17 @@ package apd
 //@   assert before strconv.ParseInt#1: {C14} [rejw_exp2] Ascii(bytes(orig)) && 0 <= gk2 && gk2 < len(bytes(orig)) && gk2 - (len(bytes(orig)) - len(bytes(now(s)))) > i ==> bytes(arg0)[gk2 - (len(bytes(orig)) - len(bytes(now(s)))) - i - 1] == LC(bytes(orig)[gk2])
 //@   assert before (*BigInt).SetString#1: {C14} [rejw_mant2] Ascii(bytes(orig)) && 0 <= gk && gk < gk2 && gk2 < len(bytes(orig)) && bytes(orig)[gk] == 46 && bytes(orig)[gk2] == 46 ==> 0 <= gk2 - SgnOff(bytes(orig)) - 1 && gk2 - SgnOff(bytes(orig)) - 1 < len(bytes(now(s))) && bytes(now(s))[gk2 - SgnOff(bytes(orig)) - 1] == 46
 //@   assert before (*BigInt).SetString#1: {C14} [rejw_mant] Ascii(bytes(orig)) && NumStart(bytes(orig)) && 0 <= gk && gk < len(bytes(orig)) && IsLetter(bytes(orig)[gk]) && bytes(orig)[gk] != 69 && bytes(orig)[gk] != 101 ==> bytes(now(s))[gk - ite(bytes(orig)[0] == 43 || bytes(orig)[0] == 45, 1, 0)] == LC(bytes(orig)[gk]) || bytes(now(s))[gk - ite(bytes(orig)[0] == 43 || bytes(orig)[0] == 45, 1, 0) - 1] == LC(bytes(orig)[gk])
-//@   ensures {C14} [rej_letter] Ascii(bytes(s)) && NumStart(bytes(s)) && 0 <= gk && gk < len(bytes(s)) && IsLetter(bytes(s)[gk]) && bytes(s)[gk] != 69 && bytes(s)[gk] != 101 ==> ret1 != nil
-//@   ensures {C14} [rej_nan_tail] Ascii(bytes(s)) && NanHead(bytes(s), SgnOff(bytes(s))) && SgnOff(bytes(s)) + 3 <= gk && gk < len(bytes(s)) && !IsDigit(bytes(s)[gk]) ==> ret1 != nil
-//@   ensures {C14} [rej_snan_tail] Ascii(bytes(s)) && SnanHead(bytes(s), SgnOff(bytes(s))) && SgnOff(bytes(s)) + 4 <= gk && gk < len(bytes(s)) && !IsDigit(bytes(s)[gk]) ==> ret1 != nil
-//@   ensures {C14} [rej_word] Ascii(bytes(s)) && len(bytes(s)) > SgnOff(bytes(s)) && IsLetter(bytes(s)[SgnOff(bytes(s))]) && !InfText(bytes(s), SgnOff(bytes(s))) && !NanHead(bytes(s), SgnOff(bytes(s))) && !SnanHead(bytes(s), SgnOff(bytes(s))) ==> ret1 != nil
-//@   ensures {C14} [rej_two_points] Ascii(bytes(s)) && 0 <= gk && gk < gk2 && gk2 < len(bytes(s)) && bytes(s)[gk] == 46 && bytes(s)[gk2] == 46 ==> ret1 != nil
-//@   ensures {C14} [rej_two_e] Ascii(bytes(s)) && NumStart(bytes(s)) && 0 <= gk && gk < gk2 && gk2 < len(bytes(s)) && (bytes(s)[gk] == 69 || bytes(s)[gk] == 101) && (bytes(s)[gk2] == 69 || bytes(s)[gk2] == 101) ==> ret1 != nil
-//@   ensures {C14} [rej_sign_inside] Ascii(bytes(s)) && 1 <= gk && gk < len(bytes(s)) && (bytes(s)[gk] == 43 || bytes(s)[gk] == 45) && bytes(s)[gk - 1] != 69 && bytes(s)[gk - 1] != 101 ==> ret1 != nil
-//@   ensures {C14} [rej_empty] len(bytes(s)) == SgnOff(bytes(s)) ==> ret1 != nil
-//@   ensures {C14} [rej_exp_empty] Ascii(bytes(s)) && NumStart(bytes(s)) && len(bytes(s)) >= 2 && (bytes(s)[len(bytes(s)) - 1] == 69 || bytes(s)[len(bytes(s)) - 1] == 101) ==> ret1 != nil
-//@   ensures {C14} [rej_char] Ascii(bytes(s)) && 0 <= gk && gk < len(bytes(s)) && BadChar(bytes(s)[gk]) ==> ret1 != nil
+//@   ensures {C14} [rej_letter] RejLetter(bytes(s), gk, gk2) ==> ret1 != nil
+//@   ensures {C14} [rej_nan_tail] RejNanTail(bytes(s), gk, gk2) ==> ret1 != nil
+//@   ensures {C14} [rej_snan_tail] RejSnanTail(bytes(s), gk, gk2) ==> ret1 != nil
+//@   ensures {C14} [rej_word] RejWord(bytes(s), gk, gk2) ==> ret1 != nil
+//@   ensures {C14} [rej_two_points] RejTwoPoints(bytes(s), gk, gk2) ==> ret1 != nil
+//@   ensures {C14} [rej_two_e] RejTwoE(bytes(s), gk, gk2) ==> ret1 != nil
+//@   ensures {C14} [rej_sign_inside] RejSignInside(bytes(s), gk, gk2) ==> ret1 != nil
+//@   ensures {C14} [rej_empty] RejEmpty(bytes(s), gk, gk2) ==> ret1 != nil
+//@   ensures {C14} [rej_exp_empty] RejExpEmpty(bytes(s), gk, gk2) ==> ret1 != nil
+//@   ensures {C14} [rej_no_digit] RejNoDigit(bytes(s), gk, gk2) ==> ret1 != nil
+//@   ensures {C14} [rej_char] RejChar(bytes(s), gk, gk2) ==> ret1 != nil
 //@   ensures {C14} [gr_inf] SgnText(bytes(s), gneg, gplus) && InfText(bytes(s), ite(gneg || gplus, 1, 0)) ==> ret1 == nil && ret0 == 0 && d.Form == Infinite && d.Negative == gneg && val(d.Coeff) == 0 && d.Exponent == 0
 //@   ensures {C14} [gr_nan] SgnText(bytes(s), gneg, gplus) && NanText(bytes(s), ite(gneg || gplus, 1, 0), gdot, gz, gC) && gC < 18446744073709551616 ==> ret1 == nil && ret0 == 0 && d.Form == NaN && d.Negative == gneg && val(d.Coeff) == 0 && d.Exponent == 0
 //@   ensures {C14} [gr_snan] SgnText(bytes(s), gneg, gplus) && SnanText(bytes(s), ite(gneg || gplus, 1, 0), gdot, gz, gC) && gC < 18446744073709551616 ==> ret1 == nil && ret0 == 0 && d.Form == NaNSignaling && d.Negative == gneg && val(d.Coeff) == 0 && d.Exponent == 0
@@ -2264,7 +2278,7 @@ package apd
 //@   assert before (*Context).SetString#1: [basectx] BaseContext.Precision == 0 && BaseContext.MaxExponent == 100000 && BaseContext.MinExponent == -100000
 //@   requires writable(d)
 //@   assigns d
-//@   ghost gneg: bool, gC: int, gE: int, gech: int, gform: int, gplus: bool, gz: int, ga: int, gdot: bool, ghase: bool, gesg: int, gez: int, gX: int
+//@   ghost gneg: bool, gC: int, gE: int, gech: int, gform: int, gplus: bool, gz: int, ga: int, gdot: bool, ghase: bool, gesg: int, gez: int, gX: int, gk: int, gk2: int
 //@   ensures {C14} [gr_inf] SgnText(bytes(s), gneg, gplus) && InfText(bytes(s), ite(gneg || gplus, 1, 0)) ==> ret2 == nil && d.Form == Infinite && d.Negative == gneg
 //@   ensures {C14} [gr_nan] SgnText(bytes(s), gneg, gplus) && NanText(bytes(s), ite(gneg || gplus, 1, 0), gdot, gz, gC) && gC < 18446744073709551616 ==> ret2 == nil && d.Form == NaN && d.Negative == gneg
 //@   ensures {C14} [gr_snan] SgnText(bytes(s), gneg, gplus) && SnanText(bytes(s), ite(gneg || gplus, 1, 0), gdot, gz, gC) && gC < 18446744073709551616 ==> ret2 == nil && d.Form == NaNSignaling && d.Negative == gneg
@@ -2272,12 +2286,13 @@ package apd
 //@   ensures {C13,C14} [rt_fin] inlimitsB(gC, gE) && FinText(bytes(s), gneg, gC, gE, gech) ==> ret2 == nil && ret0 == d && ret1 == 0 && d.Form == Finite && d.Negative == gneg && val(d.Coeff) == gC && d.Exponent == gE
 //@   ensures {C13,C14} [rt_spec] SpecText(bytes(s), gform, gneg) ==> ret2 == nil && ret0 == d && d.Form == gform && d.Negative == gneg
 //@   ensures [wf] ret2 == nil ==> inv(d) && ret0 == d
+//@   ensures {C14} [rej] RejText(bytes(s), gk, gk2) ==> ret2 != nil && ret0 == nil && ret1 == 0
 //@ func (*Context).SetString
 //@   props C04 C06 C07 C03 C01 C13 C14
 //@   exported
 //@   requires writable(d)
 //@   assigns d
-//@   ghost gneg: bool, gC: int, gE: int, gech: int, gform: int, gplus: bool, gz: int, ga: int, gdot: bool, ghase: bool, gesg: int, gez: int, gX: int
+//@   ghost gneg: bool, gC: int, gE: int, gech: int, gform: int, gplus: bool, gz: int, ga: int, gdot: bool, ghase: bool, gesg: int, gez: int, gX: int, gk: int, gk2: int
 //@   ensures {C14} [gr_inf] p0ctx(c) && SgnText(bytes(s), gneg, gplus) && InfText(bytes(s), ite(gneg || gplus, 1, 0)) ==> ret2 == nil && d.Form == Infinite && d.Negative == gneg
 //@   ensures {C14} [gr_nan] p0ctx(c) && SgnText(bytes(s), gneg, gplus) && NanText(bytes(s), ite(gneg || gplus, 1, 0), gdot, gz, gC) && gC < 18446744073709551616 ==> ret2 == nil && d.Form == NaN && d.Negative == gneg
 //@   ensures {C14} [gr_snan] p0ctx(c) && SgnText(bytes(s), gneg, gplus) && SnanText(bytes(s), ite(gneg || gplus, 1, 0), gdot, gz, gC) && gC < 18446744073709551616 ==> ret2 == nil && d.Form == NaNSignaling && d.Negative == gneg
@@ -2288,12 +2303,14 @@ package apd
 //@   ensures [fits] wfctx(c) && ret2 == nil && !hassys(ret1) ==> fits(c, d)
 //@   ensures [trap] ret2 == nil ==> !trapped(c, ret1)
 //@   ensures [closed] closed(ret1)
+//@   ensures {C14} [rej] RejText(bytes(s), gk, gk2) ==> ret2 != nil && ret0 == nil && ret1 == 0
+//@   ensures {C14} [nopartial] ret2 != nil ==> (ret0 == nil && ret1 == 0) || trapped(c, ret1)
 //@ func (*Context).NewFromString
 //@   props C04 C01 C07 C13 C14
 //@   exported
 //@   assigns nothing
 //@   allocates
-//@   ghost gneg: bool, gC: int, gE: int, gech: int, gform: int, gplus: bool, gz: int, ga: int, gdot: bool, ghase: bool, gesg: int, gez: int, gX: int
+//@   ghost gneg: bool, gC: int, gE: int, gech: int, gform: int, gplus: bool, gz: int, ga: int, gdot: bool, ghase: bool, gesg: int, gez: int, gX: int, gk: int, gk2: int
 //@   ensures {C14} [gr_inf] p0ctx(c) && SgnText(bytes(s), gneg, gplus) && InfText(bytes(s), ite(gneg || gplus, 1, 0)) ==> ret2 == nil && ret0.Form == Infinite && ret0.Negative == gneg
 //@   ensures {C14} [gr_nan] p0ctx(c) && SgnText(bytes(s), gneg, gplus) && NanText(bytes(s), ite(gneg || gplus, 1, 0), gdot, gz, gC) && gC < 18446744073709551616 ==> ret2 == nil && ret0.Form == NaN && ret0.Negative == gneg
 //@   ensures {C14} [gr_snan] p0ctx(c) && SgnText(bytes(s), gneg, gplus) && SnanText(bytes(s), ite(gneg || gplus, 1, 0), gdot, gz, gC) && gC < 18446744073709551616 ==> ret2 == nil && ret0.Form == NaNSignaling && ret0.Negative == gneg
@@ -2301,13 +2318,15 @@ package apd
 //@   ensures {C13,C14} [rt_fin] p0ctx(c) && inlimits0(c, gC, gE) && FinText(bytes(s), gneg, gC, gE, gech) ==> ret2 == nil && ret0 != nil && ret1 == 0 && ret0.Form == Finite && ret0.Negative == gneg && val(ret0.Coeff) == gC && ret0.Exponent == gE
 //@   ensures {C13,C14} [rt_spec] p0ctx(c) && SpecText(bytes(s), gform, gneg) ==> ret2 == nil && ret0 != nil && ret0.Form == gform && ret0.Negative == gneg
 //@   ensures [wf] ret2 == nil ==> ret0 != nil && inv(ret0)
+//@   ensures {C14} [rej] RejText(bytes(s), gk, gk2) ==> ret2 != nil && ret0 == nil && ret1 == 0
+//@   ensures {C14} [nopartial] ret2 != nil ==> (ret0 == nil && ret1 == 0) || trapped(c, ret1)
 //@ func NewFromString
 //@   props C04 C01 C07 C13 C14
 //@   exported
 //@   assigns nothing
 //@   allocates
 //@   assert before (*Context).NewFromString#1: [basectx] BaseContext.Precision == 0 && BaseContext.MaxExponent == 100000 && BaseContext.MinExponent == -100000
-//@   ghost gneg: bool, gC: int, gE: int, gech: int, gform: int, gplus: bool, gz: int, ga: int, gdot: bool, ghase: bool, gesg: int, gez: int, gX: int
+//@   ghost gneg: bool, gC: int, gE: int, gech: int, gform: int, gplus: bool, gz: int, ga: int, gdot: bool, ghase: bool, gesg: int, gez: int, gX: int, gk: int, gk2: int
 //@   ensures {C14} [gr_inf] SgnText(bytes(s), gneg, gplus) && InfText(bytes(s), ite(gneg || gplus, 1, 0)) ==> ret2 == nil && ret0.Form == Infinite && ret0.Negative == gneg
 //@   ensures {C14} [gr_nan] SgnText(bytes(s), gneg, gplus) && NanText(bytes(s), ite(gneg || gplus, 1, 0), gdot, gz, gC) && gC < 18446744073709551616 ==> ret2 == nil && ret0.Form == NaN && ret0.Negative == gneg
 //@   ensures {C14} [gr_snan] SgnText(bytes(s), gneg, gplus) && SnanText(bytes(s), ite(gneg || gplus, 1, 0), gdot, gz, gC) && gC < 18446744073709551616 ==> ret2 == nil && ret0.Form == NaNSignaling && ret0.Negative == gneg
@@ -2319,6 +2338,7 @@ package apd
 // Etail(s, m, e, adj): s ends at m with the exponent part: the letter e, a sign, the decimal text of |adj|
 //@ define EtailTo(s: []byte, m: int, e: int, adj: int, end: int): bool = s[m] == e && s[m + 1] == ite(adj < 0, 45, 43) && end == m + 2 + nd10(abs(adj)) && dseg(s, m + 2, abs(adj), 0, nd10(abs(adj)))
 //@ define Etail(s: []byte, m: int, e: int, adj: int): bool = EtailTo(s, m, e, adj, len(s))
+//@   ensures {C14} [rej] RejText(bytes(s), gk, gk2) ==> ret2 != nil && ret0 == nil && ret1 == 0
 //@ func strconv.AppendUint
 //@   trusted strconv (panics for a base outside 2..36; appends at least one digit - in dst's spare cells when they suffice, else in a new array; in base 10 the digits are the decimal text of i: uf_dchar(i, k) is by definition its k-th character)
 //@   requires 2 <= base && base <= 36
@@ -2392,11 +2412,21 @@ package apd
 //@   requires writable(d)
 //@   assigns d
 //@   ensures [wf] ret == nil ==> inv(d)
-//@   ghost gneg: bool, gC: int, gE: int, gech: int, gform: int
+//@   ghost gneg: bool, gC: int, gE: int, gech: int, gform: int, gplus: bool, gz: int, ga: int, gdot: bool, ghase: bool, gesg: int, gez: int, gX: int, gk: int, gk2: int
 //@   ensures {C13,C14} [rt_fin_s] isstr(src) && inlimitsB(gC, gE) && FinText(bytes(istr(src)), gneg, gC, gE, gech) ==> ret == nil && d.Form == Finite && d.Negative == gneg && val(d.Coeff) == gC && d.Exponent == gE
 //@   ensures {C13,C14} [rt_spec_s] isstr(src) && SpecText(bytes(istr(src)), gform, gneg) ==> ret == nil && d.Form == gform && d.Negative == gneg
 //@   ensures {C13,C14} [rt_fin_b] isbytes(src) && inlimitsB(gC, gE) && FinText(ibytes(src), gneg, gC, gE, gech) ==> ret == nil && d.Form == Finite && d.Negative == gneg && val(d.Coeff) == gC && d.Exponent == gE
 //@   ensures {C13,C14} [rt_spec_b] isbytes(src) && SpecText(ibytes(src), gform, gneg) ==> ret == nil && d.Form == gform && d.Negative == gneg
+//@   ensures {C14} [gr_inf_s] isstr(src) && SgnText(bytes(istr(src)), gneg, gplus) && InfText(bytes(istr(src)), ite(gneg || gplus, 1, 0)) ==> ret == nil && d.Form == Infinite && d.Negative == gneg
+//@   ensures {C14} [gr_nan_s] isstr(src) && SgnText(bytes(istr(src)), gneg, gplus) && NanText(bytes(istr(src)), ite(gneg || gplus, 1, 0), gdot, gz, gC) && gC < 18446744073709551616 ==> ret == nil && d.Form == NaN && d.Negative == gneg
+//@   ensures {C14} [gr_snan_s] isstr(src) && SgnText(bytes(istr(src)), gneg, gplus) && SnanText(bytes(istr(src)), ite(gneg || gplus, 1, 0), gdot, gz, gC) && gC < 18446744073709551616 ==> ret == nil && d.Form == NaNSignaling && d.Negative == gneg
+//@   ensures {C14} [gr_fin_s] isstr(src) && GramText(bytes(istr(src)), gneg, gplus, gz, gC, gdot, ga, ghase, gech, gesg, gez, gX) && gX <= 100000 && GramFrac(gz, gC, gdot, ga) <= 100000 && inlimitsB(gC, GramExp(gz, gC, gdot, ga, ghase, gesg, gX)) ==> ret == nil && d.Form == Finite && d.Negative == gneg && val(d.Coeff) == gC && d.Exponent == GramExp(gz, gC, gdot, ga, ghase, gesg, gX)
+//@   ensures {C14} [rej_s] isstr(src) && RejText(bytes(istr(src)), gk, gk2) ==> ret != nil
+//@   ensures {C14} [gr_inf_b] isbytes(src) && SgnText(ibytes(src), gneg, gplus) && InfText(ibytes(src), ite(gneg || gplus, 1, 0)) ==> ret == nil && d.Form == Infinite && d.Negative == gneg
+//@   ensures {C14} [gr_nan_b] isbytes(src) && SgnText(ibytes(src), gneg, gplus) && NanText(ibytes(src), ite(gneg || gplus, 1, 0), gdot, gz, gC) && gC < 18446744073709551616 ==> ret == nil && d.Form == NaN && d.Negative == gneg
+//@   ensures {C14} [gr_snan_b] isbytes(src) && SgnText(ibytes(src), gneg, gplus) && SnanText(ibytes(src), ite(gneg || gplus, 1, 0), gdot, gz, gC) && gC < 18446744073709551616 ==> ret == nil && d.Form == NaNSignaling && d.Negative == gneg
+//@   ensures {C14} [gr_fin_b] isbytes(src) && GramText(ibytes(src), gneg, gplus, gz, gC, gdot, ga, ghase, gech, gesg, gez, gX) && gX <= 100000 && GramFrac(gz, gC, gdot, ga) <= 100000 && inlimitsB(gC, GramExp(gz, gC, gdot, ga, ghase, gesg, gX)) ==> ret == nil && d.Form == Finite && d.Negative == gneg && val(d.Coeff) == gC && d.Exponent == GramExp(gz, gC, gdot, ga, ghase, gesg, gX)
+//@   ensures {C14} [rej_b] isbytes(src) && RejText(ibytes(src), gk, gk2) ==> ret != nil
 //@ func (*NullDecimal).Scan
 //@   props C04 C06
 //@   exported
@@ -2731,10 +2761,15 @@ package apd
 //@   exported
 //@   requires writable(d)
 //@   assigns d
-//@   ghost gneg: bool, gC: int, gE: int, gech: int, gform: int
+//@   ghost gneg: bool, gC: int, gE: int, gech: int, gform: int, gplus: bool, gz: int, ga: int, gdot: bool, ghase: bool, gesg: int, gez: int, gX: int, gk: int, gk2: int
 //@   ensures {C13,C14} [rt_fin] inlimitsB(gC, gE) && FinText(b, gneg, gC, gE, gech) ==> ret == nil && d.Form == Finite && d.Negative == gneg && val(d.Coeff) == gC && d.Exponent == gE
 //@   ensures {C13,C14} [rt_spec] SpecText(b, gform, gneg) ==> ret == nil && d.Form == gform && d.Negative == gneg
 //@   ensures [wf] ret == nil ==> inv(d)
+//@   ensures {C14} [gr_inf] SgnText(b, gneg, gplus) && InfText(b, ite(gneg || gplus, 1, 0)) ==> ret == nil && d.Form == Infinite && d.Negative == gneg
+//@   ensures {C14} [gr_nan] SgnText(b, gneg, gplus) && NanText(b, ite(gneg || gplus, 1, 0), gdot, gz, gC) && gC < 18446744073709551616 ==> ret == nil && d.Form == NaN && d.Negative == gneg
+//@   ensures {C14} [gr_snan] SgnText(b, gneg, gplus) && SnanText(b, ite(gneg || gplus, 1, 0), gdot, gz, gC) && gC < 18446744073709551616 ==> ret == nil && d.Form == NaNSignaling && d.Negative == gneg
+//@   ensures {C14} [gr_fin] GramText(b, gneg, gplus, gz, gC, gdot, ga, ghase, gech, gesg, gez, gX) && gX <= 100000 && GramFrac(gz, gC, gdot, ga) <= 100000 && inlimitsB(gC, GramExp(gz, gC, gdot, ga, ghase, gesg, gX)) ==> ret == nil && d.Form == Finite && d.Negative == gneg && val(d.Coeff) == gC && d.Exponent == GramExp(gz, gC, gdot, ga, ghase, gesg, gX)
+//@   ensures {C14} [rej] RejText(b, gk, gk2) ==> ret != nil
 //@ func (*Decimal).MarshalText
 //@   props C04 C14
 //@   exported
